@@ -14,6 +14,11 @@ class ScriptExhausted(Exception):
     pass
 
 
+class InjectedFault(Exception):
+    """raised by a tap at a chosen draw: a failpoint at an existing call site of the code under test (the caller of the library
+    function catches it, as an application would catch any exception escaping from a library call)"""
+
+
 class RandomTap:
     """Quacks like the random module.  Modes per call kind:
        script[kind]  : list of outcomes consumed in order (see each method for the meaning)
@@ -35,6 +40,7 @@ class RandomTap:
         self.other = Counter()
         self.recent_bits = {}
         self.pending_random = None
+        self.fail_at = None
         self.reseeds = []
 
     # -- helpers ---------------------------------------------------------------------
@@ -53,6 +59,11 @@ class RandomTap:
 
     def _ev(self, kind, summary, result):
         self.counts[kind] += 1
+        if self.fail_at is not None:
+            self.fail_at -= 1
+            if self.fail_at <= 0:
+                self.fail_at = None
+                raise InjectedFault("injected at a %s() call" % kind)
         if self.on_event is not None:
             self.on_event(self, kind)
         if self.keep_log:
@@ -196,6 +207,17 @@ class RandomTap:
         attr = getattr(self.rng, name)
         self.other[name] += 1
         return attr
+
+
+def reseed_bits(tap):
+    """None if the code under test never re-seeded the tap (or did so with a value of unknown width); otherwise the largest number
+    of bits a seed value carried - everything drawn after such a call is a function of at most that many random bits"""
+    if not tap.reseeds:
+        return None
+    known = [r["bits"] for r in tap.reseeds if r["bits"] is not None]
+    if len(known) != len(tap.reseeds):
+        return None
+    return max(known)
 
 
 _MODULES = {
